@@ -1903,11 +1903,13 @@ def run_asan(ctx, exe, batches, prop, jobs=8):
 def plan_C12(ctx):
     selftest_rat(ctx)
     q = ctx.quick()
-    run_mc_text(ctx, "OptConcurrent", optconc_cfg("{1, 2}", 2, 1 if q else 2, "{1}" if q else "{1, 2}", "locked", False), "OptConcurrent(locked, fresh)", workers=12, heap="8g", coverage=False)
-    run_mc_text(ctx, "OptConcurrent", optconc_cfg("{1, 2}", 2, 1, "{1}", "unlocked", True), "OptConcurrent(unlocked, prior call)", workers=8, coverage=False)
+    # the history of accesses is an order-free set judged at each access (OptConcurrent.tla), so three and four evaluators are exhaustive
+    run_mc_text(ctx, "OptConcurrent", optconc_cfg("{1, 2, 3}", 3, 2, "{1, 2}", "locked", False), "OptConcurrent(locked, fresh, 3 evaluators x 3 points x 2 tasks x 2 workers)", workers=12, heap="8g", coverage=False)
+    run_mc_text(ctx, "OptConcurrent", optconc_cfg("{1, 2, 3}", 2, 2, "{1, 2}", "unlocked", True), "OptConcurrent(unlocked, prior call, 3 evaluators)", workers=8, coverage=False)
     run_mc_text(ctx, "OptConcurrent", optconc_cfg("{1}", 1, 3, "{1, 2}", "locked", False), "OptConcurrent(executor: 3 tasks, 2 workers)", workers=8, coverage=False)
     if not q:
-        run_mc_text(ctx, "OptConcurrent", optconc_cfg("{1, 2, 3}", 2, 1, "{1}", "locked", False), "OptConcurrent(3 evaluators)", workers=12, heap="10g", coverage=False, timeout=2400)
+        run_mc_text(ctx, "OptConcurrent", optconc_cfg("{1, 2, 3, 4}", 2, 2, "{1, 2}", "locked", False), "OptConcurrent(4 evaluators)", workers=12, heap="10g", coverage=False, timeout=2400)
+        run_mc_text(ctx, "OptConcurrent", optconc_cfg("{1, 2, 3}", 4, 3, "{1, 2}", "locked", False), "OptConcurrent(3 evaluators, 4 points, 3 tasks)", workers=12, heap="10g", coverage=False, timeout=2400)
     run_mc_text(ctx, "OptConcurrent", optconc_cfg("{1, 2}", 2, 1, "{1}", "unlocked", False), "broken twin: lazy fill without synchronisation", workers=4, expect_violation=True, coverage=False)
     run_mc_text(ctx, "OptConcurrent", optconc_cfg("{1}", 1, 2, "{1, 2}", "intask", False), "broken twin: reduction inside the tasks", workers=4, expect_violation=True, coverage=False)
     r = gen.Rng(ctx.seed * 1000003 + 12)
@@ -1916,7 +1918,7 @@ def plan_C12(ctx):
     tsan = vbuild.opt_replay(extra_flags=["-fsanitize=thread", "-O1", "-g"], link_flags=["-fsanitize=thread"], name="opt_replay_tsan")
     run_tsan(ctx, tsan, balanced(execs, 8 if q else 16))
     return opt_finish(ctx, batches, {},
-                      "TLC explores every interleaving of 2 (thorough: 3) concurrent evaluators with the lazy layout fill split into its steps, "
+                      "TLC explores every interleaving of 3 (thorough: 4) concurrent evaluators with the lazy layout fill split into its steps, "
                       "and of executor tasks on 2 workers, under a happens-before definition of a data race (2 broken twins rejected: unsynchronised "
                       "lazy fill; reduction moved into the per-segment task); on the real class: every permutation of the segment order for N <= 4 "
                       "and random partitions onto 2..3 threads through user-level executors, 2..4 threads evaluating concurrently on one freshly "
